@@ -140,6 +140,14 @@ impl XmlConverter {
             if let Some(text) = text {
                 w.write(XmlEvent::characters(text))?;
             }
+            if name.is_none() && text.is_none() {
+                // Writing nothing would silently drop the node.
+                return Err(BuildError::new(
+                    "XML nodes must have either a name or a text field",
+                    ErrorType::TypeFail,
+                )
+                .to_boxed());
+            }
         } else if let Val::Str(s) = v {
             w.write(XmlEvent::characters(s.as_ref()))?;
         } else {
@@ -177,6 +185,19 @@ impl XmlConverter {
             }
             match root {
                 Some(n) => {
+                    // The root of a document is an element. A text node
+                    // there would not give a well formed document.
+                    let is_element = match n.as_ref() {
+                        Val::Tuple(fs) => fs.iter().any(|(k, _)| k.as_ref() == "name"),
+                        _ => false,
+                    };
+                    if !is_element {
+                        return Err(BuildError::new(
+                            "XML doc root must be a tuple with a name field",
+                            ErrorType::TypeFail,
+                        )
+                        .to_boxed());
+                    }
                     let mut writer = EmitterConfig::new()
                         .perform_indent(true)
                         .normalize_empty_elements(false)
